@@ -288,9 +288,12 @@ fn parse_operand_list<'a>(i: SliceIter<'a, Token>) -> ParseResult<'a, Vec<Elemen
         ) {
             Result::Fail(e) => {
                 if firstrun {
-                    // If we don't find an operator in our first
-                    // run then this is not an operand list.
-                    return Result::Fail(e);
+                    // If we don't find an operator in our first run then the
+                    // single operand is the whole expression. Handing it back
+                    // instead of failing saves the caller from parsing it a
+                    // second time, which doubled the work at every nesting level.
+                    let _ = e;
+                    break;
                 }
                 // if we don't find one on subsequent runs then
                 // that's the end of the operand list.
